@@ -800,6 +800,8 @@ func buildWorld(t *TopoSpec) *world {
 		buildRestart(w, st)
 	case "cached-cut":
 		buildCachedCut(w)
+	case "v6-burst":
+		buildV6Burst(w)
 	}
 
 	if t.TCAll {
